@@ -1,5 +1,185 @@
 import RV.Json
+import RV.Drv.Arith
+import RV.Model.CtlBlueGreen
+import RV.Oracle.CtlBlueGreen
 namespace RV.Drv.CtlBlueGreen
-open Lean RV
-def handle : Handler := fun op _ _ => .error s!"CtlBlueGreen: op {op} not implemented"
+open Lean RV RV.Arith RV.CtlBlueGreen RV.Drv.Arith
+
+def kindOf : String → R Kind
+  | "deployment" => .ok .deployment
+  | "cloneSet" => .ok .cloneSet
+  | s => .error s!"kind {s}"
+def stypeOf : String → SType
+  | "empty" => .empty | "expected" => .expected | _ => .other
+def stypeStr : SType → String
+  | .empty => "empty" | .expected => "expected" | .other => "other"
+def opOf : String → R Op
+  | "initialize" => .ok .init
+  | "upgradeBatch" => .ok .upgrade
+  | "finalize" => .ok .fin
+  | s => .error s!"op {s}"
+def resStr : Res → String
+  | .ok => "ok" | .retry => "retry" | .badRequest => "badRequest" | .notFound => "notFound" | .err => "err"
+def resOf : String → R Res
+  | "ok" => .ok .ok | "retry" => .ok .retry | "badRequest" => .ok .badRequest
+  | "notFound" => .ok .notFound | "err" => .ok .err
+  | s => .error s!"res {s}"
+
+def settingOfJson (j : Json) : R Setting := do
+  return { maxUnavailable := ← iosOptOfJson j "maxUnavailable", maxSurge := ← iosOptOfJson j "maxSurge",
+           minReadySeconds := ← fInt j "minReadySeconds", progressDeadlineSeconds := ← fOptInt j "progressDeadlineSeconds" }
+def settingToJson (s : Setting) : Json :=
+  mkObj [("maxUnavailable", optJ iosToJson s.maxUnavailable), ("maxSurge", optJ iosToJson s.maxSurge),
+         ("minReadySeconds", intJ s.minReadySeconds), ("progressDeadlineSeconds", optJ intJ s.progressDeadlineSeconds)]
+
+def savedOfJson (j : Json) (k : String) : R Saved :=
+  match jopt j k with
+  | none => .ok .none
+  | some (.str _) => .ok .bad
+  | some v => do return .some (← settingOfJson v)
+def savedToJson : Saved → Json
+  | .none => .null
+  | .bad => strJ "bad"
+  | .some s => settingToJson s
+
+def ruOfJson (j : Json) (k : String) : R (Option RU) :=
+  match jopt j k with
+  | none => .ok none
+  | some v => do return some { maxSurge := ← iosOptOfJson v "maxSurge", maxUnavailable := ← iosOptOfJson v "maxUnavailable" }
+def ruToJson (r : RU) : Json :=
+  mkObj [("maxSurge", optJ iosToJson r.maxSurge), ("maxUnavailable", optJ iosToJson r.maxUnavailable)]
+
+def ctlOfInt (n : Int) : Ctl := if n = -1 then .none else if n < 0 then .garbage else .uid n.toNat
+def ctlToInt : Ctl → Int
+  | .none => -1 | .garbage => -2 | .uid u => u
+
+def statusOfJson (j : Json) : R Status := do
+  return { replicas := ← fInt j "replicas", ready := ← fInt j "ready", updated := ← fInt j "updated",
+           available := ← fInt j "available", updatedReady := ← fInt j "updatedReady" }
+def statusToJson (s : Status) : Json :=
+  mkObj [("replicas", intJ s.replicas), ("ready", intJ s.ready), ("updated", intJ s.updated),
+         ("available", intJ s.available), ("updatedReady", intJ s.updatedReady)]
+
+def wlOfJson (j : Json) : R Workload := do
+  return { replicas := ← fOptInt j "replicas", deleting := ← fBool j "deleting", paused := ← fBool j "paused",
+           minReadySeconds := ← fInt j "minReadySeconds", progressDeadlineSeconds := ← fOptInt j "progressDeadlineSeconds",
+           stype := stypeOf (← fStr j "stype"), ru := ← ruOfJson j "ru", partition := ← iosOptOfJson j "partition",
+           saved := ← savedOfJson j "saved", ctl := ctlOfInt (← fInt j "ctl"), stableLabel := ← fBool j "stableLabel",
+           status := ← statusOfJson (← jget j "status") }
+def wlToJson (w : Workload) : Json :=
+  mkObj [("replicas", optJ intJ w.replicas), ("deleting", boolJ w.deleting), ("paused", boolJ w.paused),
+         ("minReadySeconds", intJ w.minReadySeconds), ("progressDeadlineSeconds", optJ intJ w.progressDeadlineSeconds),
+         ("stype", strJ (stypeStr w.stype)), ("ru", optJ ruToJson w.ru), ("partition", optJ iosToJson w.partition),
+         ("saved", savedToJson w.saved), ("ctl", intJ (ctlToInt w.ctl)), ("stableLabel", boolJ w.stableLabel),
+         ("status", statusToJson w.status)]
+
+def hpaOfJson (j : Json) : R HPA := do
+  let av := match (← fStr j "av") with
+    | "absent" => AV.absent | "same" => AV.same | _ => AV.other
+  let n ← fInt j "name"
+  return { av := av, kindSame := (← fStr j "kind") == "same", name := if n < 0 then none else some n.toNat }
+def hpaToJson (h : HPA) : Json :=
+  mkObj [("av", strJ (match h.av with | .absent => "absent" | .same => "same" | .other => "other")),
+         ("kind", strJ (if h.kindSame then "same" else "other")),
+         ("name", match h.name with | none => intJ (-1) | some k => intJ k)]
+
+def rsOfJson (j : Json) : R RS := do return { zero := ← fBool j "zero", mrs := ← fInt j "mrs" }
+def rsToJson (r : RS) : Json := mkObj [("zero", boolJ r.zero), ("mrs", intJ r.mrs)]
+
+def worldOfJson (j : Json) : R World := do
+  let wl ← (match jopt j "wl" with
+    | none => pure none
+    | some v => do pure (some (← wlOfJson v)))
+  return { wl := wl, rss := ← (← fArrD j "rss").mapM rsOfJson,
+           hpaV2 := ← (← fArrD j "hpaV2").mapM hpaOfJson, hpaV1 := ← (← fArrD j "hpaV1").mapM hpaOfJson }
+def worldToJson (w : World) : Json :=
+  mkObj [("wl", optJ wlToJson w.wl), ("rss", arrJ (w.rss.map rsToJson)),
+         ("hpaV2", arrJ (w.hpaV2.map hpaToJson)), ("hpaV1", arrJ (w.hpaV1.map hpaToJson))]
+
+def brOfJson (j : Json) : R BR := do
+  return { uid := ← fNat j "uid", batches := ← (← fArrD j "batches").mapM iosOfJson,
+           currentBatch := ← fInt j "currentBatch", partitioned := ← fBool j "partitioned" }
+
+def faultOfJson (j : Json) : R Fault := do
+  return { write := ← fOptNat j "write", get := ← fBool j "get", listV2 := ← fBool j "listV2", listV1 := ← fBool j "listV1" }
+
+def callOutToJson (o : CallOut) : Json :=
+  mkObj [("world", worldToJson o.world), ("res", strJ (resStr o.res)), ("writes", natJ o.writes),
+         ("observed", optJ intJ o.observed)]
+def callOutOfJson (j : Json) : R CallOut := do
+  return { world := ← worldOfJson (← jget j "world"), res := ← resOf (← fStr j "res"), writes := ← fNat j "writes",
+           observed := ← fOptInt j "observed" }
+
+def outToJson : Out CallOut → Json
+  | .panic => mkObj [("panic", strJ "?")]
+  | .val o => callOutToJson o
+
+def origOfJson (j : Json) : R (Option RV.Oracle.CtlBlueGreen.Orig) :=
+  match jopt j "orig" with
+  | none => .ok none
+  | some v => do
+    return some { setting := ← settingOfJson (← jget v "setting"), stype := stypeOf (← fStr v "stype") }
+
+def opName : Op → String
+  | .init => "initialize" | .upgrade => "upgradeBatch" | .fin => "finalize"
+
+def handle : Handler := fun op inp impl => do
+  let kind ← kindOf (← fStr inp "kind")
+  let w ← worldOfJson (← jget inp "world")
+  let br ← brOfJson (← jget inp "br")
+  let cop ← opOf (← fStr inp "op")
+  let f ← faultOfJson (← jget inp "fault")
+  let orig ← origOfJson inp
+  let baseTags := [s!"kind:{if kind = .deployment then "deployment" else "cloneSet"}", s!"op:{opName cop}",
+    if f.write.isSome then "fault:write" else if f.get then "fault:get" else if f.listV2 || f.listV1 then "fault:list" else "fault:none",
+    if orig.isSome then "walk" else "single"] ++
+    (match w.wl with
+     | none => ["wl:absent", "trivial"]
+     | some wl =>
+       [match wl.saved with | .none => "saved:none" | .bad => "saved:bad" | .some _ => "saved:some",
+        if wl.ctl = .none then "ctl:none" else if controlled br wl then "ctl:this" else "ctl:other"] ++
+       (if f.get then ["trivial"] else [])) ++
+    [match findHPA w noFault with
+     | .panic => "hpa:panic"
+     | .val none => "hpa:none"
+     | .val (some (_, 0)) => "hpa:enabled"
+     | .val (some _) => "hpa:disabled",
+     s!"rs:{w.rss.length}"] ++
+    RV.Oracle.CtlBlueGreen.guardTags kind cop w br f orig
+  match op with
+  | "step" =>
+    let m := call kind cop w br f
+    let holds ← (match jopt impl "panic" with
+      | some _ => pure [("C09.bg_no_panic", RV.Oracle.CtlBlueGreen.panicAllowed cop w br)]
+      | none => do
+        let o ← callOutOfJson impl
+        pure (RV.Oracle.CtlBlueGreen.stepOracles kind cop w br orig o))
+    let rtag := match jopt impl "panic" with
+      | some _ => ["res:panic"]
+      | none => match jopt impl "res" with
+        | some (.str s) => [s!"res:{s}", s!"writes:{(jgetD impl "writes" .null).compress}"]
+        | _ => []
+    return { model := outToJson m, holds := holds, tags := baseTags ++ rtag }
+  | "retry" =>
+    let first := call kind cop w br f
+    let model := match first with
+      | .panic => mkObj [("panic", strJ "?")]
+      | .val o1 =>
+        match call kind cop o1.world br noFault, call kind cop w br noFault with
+        | .val o2, .val o3 =>
+          (match call kind cop o3.world br noFault with
+           | .val o4 => mkObj [("first", callOutToJson o1), ("second", callOutToJson o2), ("direct", callOutToJson o3),
+                               ("again", callOutToJson o4)]
+           | .panic => mkObj [("panic", strJ "?")])
+        | _, _ => mkObj [("panic", strJ "?")]
+    let holds ← (match jopt impl "panic" with
+      | some _ => pure [("C09.bg_no_panic", RV.Oracle.CtlBlueGreen.panicAllowed cop w br)]
+      | none => do
+        let o2 ← callOutOfJson (← jget impl "second")
+        let o3 ← callOutOfJson (← jget impl "direct")
+        let o4 ← callOutOfJson (← jget impl "again")
+        pure (RV.Oracle.CtlBlueGreen.retryOracles cop br o2 o3 o4))
+    return { model := model, holds := holds, tags := "retry" :: baseTags }
+  | _ => .error s!"ctlbluegreen: unknown op {op}"
+
 end RV.Drv.CtlBlueGreen
